@@ -420,13 +420,20 @@ branch / closure / defer) and `Props/C19.lean` proves the regenerated lists equa
 def cfgOf (passesFirstError stageRecovers rejectNotifies : Bool) : Cfg :=
   ⟨if passesFirstError then .first else .own, stageRecovers, rejectNotifies⟩
 
+/-- the `Complete()` hook inside `completeStage`'s critical section: called directly (`false`, the
+source as it is: a panic of the hook leaves `sm.mutex` locked, see Model/CompleteLock.lean) or inside
+a recover whose error is remembered as the first error (`true`, fixes/C19-complete-hook-recover.patch) -/
+def completeHookOrder : Bool → List String
+  | false => ["then:s.stage.Complete()"]
+  | true => ["then:safeComplete(s.stage)", "then:if hookErr != nil && sm.err == nil", "then:then:sm.err = hookErr"]
+
 /-- `pipelineStateMachine.completeStage`: `track` = the section between Lock and Unlock, `dec` = the
 `Dec() == 0` test, then `fire e e` (own) resp. `load`, `fire firstErr` (first) -/
-def completeStageOrder : CompleteArg → List String
-  | .own => ["sm.mutex.Lock()", "then:s.stage.Complete()", "sm.mutex.Unlock()",
+def completeStageOrder : CompleteArg → Bool → List String
+  | .own, g => ["sm.mutex.Lock()"] ++ completeHookOrder g ++ ["sm.mutex.Unlock()",
              "if sm.pending.Dec() == 0", "then:sm.complete(err)"]
-  | .first => ["sm.mutex.Lock()", "if err != nil && sm.err == nil", "then:sm.err = err",
-               "then:s.stage.Complete()", "sm.mutex.Unlock()",
+  | .first, g => ["sm.mutex.Lock()", "if err != nil && sm.err == nil", "then:sm.err = err"] ++
+               completeHookOrder g ++ ["sm.mutex.Unlock()",
                "if sm.pending.Dec() == 0", "then:sm.firstError()", "then:sm.complete(sm.firstError())"]
 
 /-- `pipelineStateMachine.firstError` (`load`); absent in the `own` variant -/
@@ -517,5 +524,18 @@ def collectGroupByTagValuesOrder : List String :=
 /-- `TaskHandler.process`: pool hand-over; answers a `Process` error; the panic handler answers -/
 def taskHandlerProcessOrder : List String :=
   ["q.taskPool.Submit(taskCtx.Ctx, concurrent.NewTask((func() literal), (func(err error) literal)))", "λ1:q.processor.Process(taskCtx, stream, req)", "λ1:if err != nil", "λ1:then:stream.Send(&protoCommonV1.TaskResponse{…})", "λ2:stream.Send(&protoCommonV1.TaskResponse{…})"]
+
+/-- every function of the query packages that puts a `TaskResponse` on a stream itself (with the
+number of such calls). On the leaf: `LeafExecuteContext.SendResponse` (the CAS-guarded responder, three
+calls of the low-level `sendResponse`, which does the one `stream.Send`), the metadata callback in
+`processMetadataSuggest`, and `TaskHandler.process` (a `Process` error, the task's panic/reject
+handler). `response_exactly_once` is about exactly these responders; any new site is a new responder
+that the model does not know. (intermediate_processor / transport_manager: the intermediate node and
+the broker-side transport, C12.) -/
+def responseSendSitesExpected : List String :=
+  ["query/intermediate_processor.go:processDataSearch×1", "query/intermediate_processor.go:processMetadataSearch×1",
+   "query/intermediate_processor.go:sendResponse×1", "query/leaf_processor.go:processMetadataSuggest×1",
+   "query/task_handler.go:process×2", "query/transport_manager.go:SendResponse×1",
+   "query/context/leaf_execute_context.go:SendResponse×3", "query/context/leaf_execute_context.go:sendResponse×1"]
 
 end LinVerif.Pipeline
